@@ -59,26 +59,18 @@ func (vc *VC) stdlibModel(name string, c *ssa.CallCommon, args []Val, st *State,
 	case "unicode/utf8.RuneLen":
 		vc.assume("assumed contract: utf8.RuneLen = -1 for negative, surrogate and > 0x10FFFF runes, else 1..4 by range")
 		return Val{t: vc.runeLenTerm(args[0].t), typ: rt}, true
-	case "unicode/utf8.DecodeRune", "unicode/utf8.DecodeRuneInString":
-		var n Term
-		var first Term
-		if name == "unicode/utf8.DecodeRune" {
-			n = slLen(args[0].t)
-			hn, sort := vc.memName(types.Typ[types.Uint8])
-			first = app("select", app("select", vc.heapGet(st, hn, sort), slRef(args[0].t)), slOff(args[0].t))
-		} else {
-			n = strLen(args[0].t)
-			first = strAt(args[0].t, "0")
-		}
+	case "unicode/utf8.DecodeRuneInString":
+		// deterministic: the rune and the size are functions of the string (named utf8rune / utf8size in contracts)
+		r, w := vc.utf8Decode(args[0].t, reach)
+		vc.assume("assumed contract: utf8.DecodeRuneInString is a function of the string: empty -> (RuneError,0); else 1 <= size <= min(4,len); ASCII decodes to itself; invalid -> (RuneError,1); valid multi-byte -> size = RuneLen(r)")
+		return Val{tuple: []Val{{t: r, typ: types.Typ[types.Rune]}, {t: w, typ: types.Typ[types.Int]}}, typ: rt}, true
+	case "unicode/utf8.DecodeRune":
+		n := slLen(args[0].t)
+		hn, sort := vc.memName(types.Typ[types.Uint8])
+		first := app("select", app("select", vc.heapGet(st, hn, sort), slRef(args[0].t)), slOff(args[0].t))
 		r := vc.freshConst("rune", "Int")
 		w := vc.freshConst("size", "Int")
-		vc.addAssume(reach, and(
-			implies(eq(n, "0"), and(eq(r, "65533"), eq(w, "0"))),
-			implies(app(">", n, "0"), and(app("<=", "1", w), app("<=", w, "4"), app("<=", w, n),
-				app("<=", "0", r), app("<=", r, "1114111"),
-				implies(app("<", first, "128"), and(eq(r, first), eq(w, "1"))),
-				implies(app(">=", first, "128"), or(and(eq(r, "65533"), eq(w, "1")), and(app(">=", r, "128"), app(">=", w, "2"), eq(w, vc.runeLenTerm(r))))),
-			))))
+		vc.addAssume(reach, utf8DecodeFacts(vc, n, first, r, w))
 		vc.assume("assumed contract: utf8.DecodeRune[InString]: empty -> (RuneError,0); else 1 <= size <= min(4,len); ASCII decodes to itself; invalid -> (RuneError,1); valid multi-byte -> size = RuneLen(r)")
 		return Val{tuple: []Val{{t: r, typ: types.Typ[types.Rune]}, {t: w, typ: types.Typ[types.Int]}}, typ: rt}, true
 	case "unicode/utf8.EncodeRune":
@@ -246,4 +238,26 @@ func (vc *VC) appendIntModel(args []Val, st *State, reach Term, rt types.Type) V
 	vc.heapSet(st, hn, sort, ite(inPlace, app("store", h, slRef(dst), arr), app("store", h, fresh, arr)))
 	vc.assume("assumed contract: strconv.AppendInt(dst, i, 10) appends the decimal digits of i (count = number of decimal digits, plus a sign), in place when cap(dst) suffices, else into a new array; it touches nothing else")
 	return Val{t: res, typ: rt}
+}
+
+func utf8DecodeFacts(vc *VC, n, first, r, w Term) Term {
+	return and(
+		implies(eq(n, "0"), and(eq(r, "65533"), eq(w, "0"))),
+		implies(app(">", n, "0"), and(app("<=", "1", w), app("<=", w, "4"), app("<=", w, n),
+			app("<=", "0", r), app("<=", r, "1114111"),
+			implies(app("<", first, "128"), and(eq(r, first), eq(w, "1"))),
+			implies(app(">=", first, "128"), or(and(eq(r, "65533"), eq(w, "1")), and(app(">=", r, "128"), app(">=", w, "2"), eq(w, vc.runeLenTerm(r))))),
+		)))
+}
+
+// utf8Decode: rune and size of the first code point of string s as uninterpreted functions of s, with the
+// facts of the utf8.DecodeRuneInString contract for this s.
+func (vc *VC) utf8Decode(s Term, reach Term) (Term, Term) {
+	fr := vc.declareFun("ext.utf8.rune", []string{"Str"}, "Int")
+	fw := vc.declareFun("ext.utf8.size", []string{"Str"}, "Int")
+	r, w := app(fr, s), app(fw, s)
+	if !vc.noDefine {
+		vc.addAssume(reach, utf8DecodeFacts(vc, strLen(s), strAt(s, "0"), r, w))
+	}
+	return r, w
 }
